@@ -10,6 +10,7 @@ step) are *parameters*; nothing is assumed about them except where a hypothesis
 says so.  Helper lemmas live in `LA/Lemmas/*.lean`.
 -/
 import LA.Lemmas.Ctr
+import LA.Lemmas.ZipCrypt
 set_option linter.unusedSimpArgs false
 namespace LA.C20
 
@@ -92,5 +93,97 @@ theorem ctr_counter_wraps (E : Block → Block) (k0 i : Nat) :
   simp only [ksByte, h, counterBlock_wrap]
 
 end ctr
+
+/-! ## 2. Traditional PKWARE encryption (`trad_enc_*`, both copies) -/
+section zipcrypt
+open LA.ZipCrypt
+
+/-- `trad_roundtrip`: for any key state, any CRC step function, any message and any
+chunking on either side, `trad_enc_decrypt_update` undoes `trad_enc_encrypt_update`
+and both sides end in the same key state. -/
+theorem trad_roundtrip (zcrc : UInt32 → UInt8 → UInt32) (k : Keys)
+    (plain cipherChunks : List (List UInt8))
+    (hcut : cipherChunks.flatten = (runEnc zcrc k plain).2.flatten) :
+    (runDec zcrc k cipherChunks).2.flatten = plain.flatten ∧
+    (runDec zcrc k cipherChunks).1 = (runEnc zcrc k plain).1 := by
+  have he := runEnc_flatten zcrc k plain
+  have hd := runDec_flatten zcrc k cipherChunks
+  rw [hcut] at hd
+  have h := decLoop_encLoop zcrc k plain.flatten
+  rw [← he] at h
+  simp only at h
+  rw [h] at hd
+  exact ⟨(Prod.mk.inj hd).2, (Prod.mk.inj hd).1⟩
+
+example : ([[1, 2], [3]] : List (List UInt8)).flatten = [[1], [2, 3]].flatten := rfl
+
+/-- The cipher text is as long as the plain text (no padding, no expansion). -/
+theorem trad_length (zcrc : UInt32 → UInt8 → UInt32) (k : Keys) (plain : List (List UInt8)) :
+    (runEnc zcrc k plain).2.flatten.length = plain.flatten.length := by
+  have := congrArg Prod.snd (runEnc_flatten zcrc k plain)
+  simp only at this
+  rw [this, encLoop_length]
+
+/-- `trad_header_check` (1): which byte is compared.  Writer (`zip->trad_chkdat`) and
+reader (`zip_entry->decdat`) take the check byte from the same place of the local
+header: offset 11 (high byte of the DOS time) when the length-at-end flag is set,
+offset 17 (high byte of the CRC-32) otherwise. -/
+theorem trad_check_byte (lh : List UInt8) (lengthAtEnd : Bool) :
+    checkByte lh lengthAtEnd = if lengthAtEnd then lh[11]? else lh[17]? := rfl
+
+/-- `trad_header_check` (2): the reader's test is exactly "byte 11 of the decrypted
+12-byte header equals the check byte" — one byte, nothing else. -/
+theorem trad_accepts_iff (zcrc : UInt32 → UInt8 → UInt32) (pw hdr : List UInt8) (decdat : UInt8)
+    (h : 12 ≤ hdr.length) :
+    accepts zcrc pw hdr decdat = true ↔
+      (decLoop zcrc (initKeys zcrc pw) (hdr.take 12)).2[11]? = some decdat := by
+  have hl : ¬ hdr.length < 12 := by omega
+  simp only [accepts, initR, Nat.lt_irrefl, if_false, hl]
+  have hlen := decLoop_length zcrc (initKeys zcrc pw) (hdr.take 12)
+  have h11 : 11 < (decLoop zcrc (initKeys zcrc pw) (hdr.take 12)).2.length := by
+    rw [hlen, List.length_take]; omega
+  rw [List.getElem?_eq_getElem h11]
+  simp
+
+/-- `trad_header_check` (3): the header the writer emits for a passphrase is accepted
+by the reader given the same passphrase and the same check byte, for every
+passphrase, every 11 random bytes and every CRC function, and leaves the reader
+in the writer's key state (so the entry data decrypts, `trad_roundtrip`). -/
+theorem trad_header_check (zcrc : UInt32 → UInt8 → UInt32) (pw rnd11 : List UInt8) (chk : UInt8) :
+    initR zcrc pw (writeHeader zcrc pw rnd11 chk).2 12 = .ok (writeHeader zcrc pw rnd11 chk).1 chk ∧
+    accepts zcrc pw (writeHeader zcrc pw rnd11 chk).2 chk = true := by
+  let hdr := rnd11.take 11 ++ List.replicate (11 - rnd11.length) 0 ++ [chk]
+  have hlen : hdr.length = 12 := by simp [hdr, List.length_take]; omega
+  have h11 : hdr[11]? = some chk := by
+    have : (rnd11.take 11 ++ List.replicate (11 - rnd11.length) 0).length = 11 := by
+      simp [List.length_take]; omega
+    simp only [hdr]
+    rw [List.getElem?_append_right (by omega), this]; rfl
+  have hw : (writeHeader zcrc pw rnd11 chk) = encLoop zcrc (initKeys zcrc pw) hdr := rfl
+  have hwl : (encLoop zcrc (initKeys zcrc pw) hdr).2.length = 12 := by rw [encLoop_length, hlen]
+  have hinit : initR zcrc pw (writeHeader zcrc pw rnd11 chk).2 12 = .ok (writeHeader zcrc pw rnd11 chk).1 chk := by
+    rw [hw]
+    simp only [initR, Nat.lt_irrefl, if_false, hwl]
+    rw [List.take_of_length_le (by omega), decLoop_encLoop]
+    simp only [h11]
+  refine ⟨hinit, ?_⟩
+  simp only [accepts, hinit, beq_self_eq_true]
+
+/-- non-vacuity: a real passphrase, real random bytes, the zlib CRC -/
+example : accepts zlibCrc32Byte [112, 97, 115, 115] (writeHeader zlibCrc32Byte [112, 97, 115, 115]
+    [1, 2, 3, 4, 5, 6, 7, 8, 9, 10, 11] 0x5a).2 0x5a = true :=
+  (trad_header_check zlibCrc32Byte _ _ _).2
+
+/-- Whole entry: what the writer emits (12-byte header, then the payload, encrypted in
+any chunking) is turned back into the payload by the reader (header through
+`trad_enc_init`, data through `trad_enc_decrypt_update` in any chunking). -/
+theorem trad_entry_roundtrip (zcrc : UInt32 → UInt8 → UInt32) (pw rnd11 : List UInt8) (chk : UInt8)
+    (payload cipherChunks : List (List UInt8))
+    (hcut : cipherChunks.flatten = (runEnc zcrc (writeHeader zcrc pw rnd11 chk).1 payload).2.flatten) :
+    ∃ k, initR zcrc pw (writeHeader zcrc pw rnd11 chk).2 12 = .ok k chk ∧
+      (runDec zcrc k cipherChunks).2.flatten = payload.flatten :=
+  ⟨_, (trad_header_check zcrc pw rnd11 chk).1, (trad_roundtrip zcrc _ payload cipherChunks hcut).1⟩
+
+end zipcrypt
 
 end LA.C20
